@@ -54,6 +54,18 @@ def main():
             trace = json.load(f)
         core.import_scoda()
         eng = core.get_engine(prop)
+        if trace.get("kind") == "history":
+            # a violation that needs the state earlier runs of the same process left behind in the system under test
+            r = core.run_history(prop, trace["tier"], trace["verif_seed"], trace["run_indices"])
+            exp = trace.get("expected")
+            if r is None or r.violation is None or (exp and exp["class"] != r.violation.cls):
+                if not a.quiet:
+                    print(f"replay (history of {len(trace['run_indices'])} runs): no violation (expected {exp['class'] if exp else '?'})")
+                return core.EXIT_OK
+            print(f"VIOLATION property={prop} replay={os.path.abspath(a.replay)}")
+            print(f"  class={r.violation.cls} after_runs={trace['run_indices'][:-1]} run={trace['run_indices'][-1]}")
+            print(f"  detail={r.violation.detail[:500]}")
+            return core.EXIT_VIOLATION
         r = core.guarded(eng.replay, trace, True) if a.log else core.replay_trace(prop, trace)
         if a.log and r.log is not None:
             for line in r.log.items:
